@@ -322,6 +322,10 @@ def zeros(
             "Cannot sample more than the total number of zeros without replacement"
         )
 
+    if samples == 0:
+        # Nothing requested (and a full tensor has no zeros to divide by below)
+        return np.empty((0, data.ndims), dtype=int)
+
     # Save requested number of zeros
     samples_requested = samples
 
